@@ -70,7 +70,12 @@ namespace nmtools::meta
                 return as_value_v<clipped_size_t<N>>;
             } else if constexpr (is_index_array_v<shape_t>) {
                 using type = get_index_element_type_t<shape_t>;
-                return as_value_v<type>;
+                if constexpr (is_clipped_integer_v<type>) {
+                    // bounded-length array of clipped extents: the product is not bounded by the per-axis maximum
+                    return as_value_v<typename type::value_type>;
+                } else {
+                    return as_value_v<type>;
+                }
             } else {
                 using type = error::INDEX_PRODUCT_UNSUPPORTED<shape_t>;
                 return as_value_v<type>;
